@@ -49,7 +49,8 @@ CHECKS = {
         text="Theorems (Props/C19.v) about a literal Gallina model of IterativeAggregation._iteragg (label lookup on a "
              "strictly increasing axis, begin_ix/end_ix with the ValueError, the descending loop with its break and "
              "completeness test, attrs, slices): the yielded windows are exactly, newest first, those of n steps whose last "
-             "step runs from begin down to max(end, n-1) for every axis length, n >= 1, begin and end; an unlocatable label "
+             "step runs from begin down to max(end, n-1) for every axis length, n >= 1, begin and end - no window twice, and max(0, begin_ix - "
+             "max(end_ix, n-1)) of them (C19_windows_distinct_and_counted); an unlocatable label "
              "raises. Tied to /repo by comparing the whole generator sequence (attrs, stamp, values) exhaustively for axis "
              "lengths 1..7 (12 thorough) x n x begin x end, plus off-axis labels x lookup methods.",
         ref="7 (C19)",
